@@ -52,9 +52,9 @@ type Exec struct {
 
 	nextObj int
 	epoch   int
-	sumEp   int // >0 while summarising: stores to objects with Epoch < sumEp abort
-	barrier int // >0: stores to objects with Epoch < barrier are violations (C14)
-	lazy    int // >0: skip feasibility checks at branches
+	sumEp   int  // >0 while summarising: stores to objects with Epoch < sumEp abort
+	barrier int  // >0: stores to objects with Epoch < barrier are violations (C14)
+	lazy    int  // >0: skip feasibility checks at branches
 	force   bool // check feasibility at the next branch even in lazy mode
 	sumBase int  // length of the path condition when the outermost summary began
 
